@@ -6,8 +6,9 @@ set -u
 PATCH="$1"; TIER="$2"; shift 2
 cd /repo || exit 2
 if [ -n "$(git status --porcelain)" ]; then echo "repo working tree is not clean"; exit 2; fi
-if ! git apply --check "$PATCH" 2>/dev/null; then echo "patch does not apply: $PATCH"; exit 2; fi
-git apply "$PATCH"
+if git apply --check "$PATCH" 2>/dev/null; then git apply "$PATCH"
+elif git apply -3 "$PATCH" >/dev/null 2>&1 && ! grep -rq '^<<<<<<<' src precompile common 2>/dev/null; then git reset -q; echo "(patch applied with 3-way merge)"
+else git checkout -- . ; echo "patch does not apply: $PATCH"; exit 2; fi
 trap 'cd /repo && git checkout -- . && git clean -fdq -- src common precompile 2>/dev/null' EXIT
 cd /verif
 for P in "$@"; do
